@@ -1,14 +1,15 @@
 #!/bin/bash
-# tools/try_seed.sh <patch.diff>...: apply to /repo, run the quick check, undo. Prints exit code and first violations.
+# tools/try_seed.sh <patch.diff>...: apply to $REPO, run the quick check, undo. Prints exit code and first violations.
 set -u
 VERIF="$(cd "$(dirname "${BASH_SOURCE[0]}")/.." && pwd)"; cd "$VERIF"
+REPO="${VERIF_REPO:-/repo}"; export VERIF_REPO="$REPO"
 for p in "$@"; do
-  if [ -n "$(git -C /repo status --porcelain)" ]; then echo "/repo is not clean"; exit 2; fi
-  git -C /repo apply "$(realpath "$p")" || { echo "$p: does not apply"; continue; }
+  if [ -n "$(git -C $REPO status --porcelain)" ]; then echo "$REPO is not clean"; exit 2; fi
+  git -C $REPO apply "$(realpath "$p")" || { echo "$p: does not apply"; continue; }
   t0=$(date +%s)
   out="$(./check C08 --tier ${TIER:-quick} --no-evidence --run-timeout ${RUN_TIMEOUT:-25} ${EXTRA:-} 2>&1)"; rc=$?
   t1=$(date +%s)
-  git -C /repo checkout -q -- . ; git -C /repo clean -fdq visitor plugin
+  git -C $REPO checkout -q -- . ; git -C $REPO clean -fdq visitor plugin
   echo "$p: exit=$rc [$((t1-t0))s]"
   echo "$out" | grep -E "^(--- |VIOLATION|HARNESS|KNOWN)" | head -${LINES_SHOWN:-8} | cut -c1-260
   rm -f "$VERIF"/replays/C08-*.json
